@@ -542,3 +542,19 @@ def example_2pc(res, sizes=(3,), sym_sizes=()):
         "%d RMs%s: stateright unique=%d states=%d, TLC distinct=%d%s" % (x["n"], " sym" if x["symmetry"] else "", x["unique"], x["states"], x["tlc_distinct"],
                                                                        (", TLC orbits=%d" % x["tlc_orbits"]) if x["symmetry"] else "") for x in recs))
     shutil.rmtree(wd, ignore_errors=True)
+
+
+def checker_controls(res, rng, q):
+    """Checker.tla with run controls (depth limit, finish condition, target): every interleaving of the faithful algorithm
+    passes the same CheckerObs checks (stop_reason, target, target_real, depth_max, depth_min) that real runs must pass."""
+    wd = workdir("checker-ctl-%s" % res.tier)
+    small = gg.f1_corpus(rng, 20) + [gg.random_graph(rng, "cc-%d" % i, 3, 4, nprops=rng.randint(1, 2)) for i in range(15 if q else 50)] \
+        + [gg.random_forest(rng, "ccf-%d" % i, 3, 5) for i in range(6 if q else 20)]
+    gp = os.path.join(wd, "g.ndjson")
+    write_ndjson(gp, small)
+    for cfg in ["Checker_bfs_1w_depth", "Checker_dfs_2w_any", "Checker_bfs_2w_target", "Checker_dfs_2w_depth"]:
+        r = run_tlc("Checker.tla", "cfg/%s.cfg" % cfg, env=dict(GRAPHS=gp), workers=10, timeout=3000, heap="10g", name=cfg)
+        res.add_tlc(r, cfg)
+        if not r["ok"]:
+            raise ToolError("%s: %s violated on the algorithm SPEC\n%s" % (cfg, r["violated"], r["out"][-3000:]))
+    shutil.rmtree(wd, ignore_errors=True)
